@@ -139,3 +139,15 @@ Theorem distinct_reading_exact l : DistinctV l <-> exists k, LibV k rel_distinct
 Proof. split; [apply DistinctV_LibV|intros [k H]; eapply LibV_DistinctV; eauto]. Qed.
 Theorem permute_reading_exact a b : PermuteV a b <-> exists k, LibV k rel_permute [a; b].
 Proof. split; [apply PermuteV_LibV|intros [k H]; eapply LibV_PermuteV; eauto]. Qed.
+
+(* non-vacuity of the for-loop reading: for x in [1, 2] { x != 3 } *)
+Example everyg_reading : DenV [] (fun _ _ _ => False) 1 (fun _ => tnum 0)
+  (CEveryg BFS [] 5 [tnum 1; tnum 2] [[GDiseq (TVar 5 false) (tnum 3)]]).
+Proof.
+  apply V_everyg. intros m th0 He Ht Hv Hm. exists th0. split; [apply agree_refl|].
+  assert (E : from_iter BFS (fst (everyg_mk [] BFS [] 5 [[GDiseq (TVar 5 false) (tnum 3)]] [tnum 1; tnum 2] m)) =
+              CConj BFS (CConj BFS (CConj BFS (CDiseq (tnum 2) (tnum 3)) CSucceed) CSucceed)
+                        (CConj BFS (CConj BFS (CConj BFS (CDiseq (tnum 1) (tnum 3)) CSucceed) CSucceed) CSucceed)) by (vm_compute; reflexivity).
+  rewrite E. split; [|cbn; repeat split; reflexivity].
+  repeat (apply V_conj; [|try apply V_succeed]); try apply V_succeed; apply V_diseq; cbn; discriminate.
+Qed.
